@@ -188,7 +188,6 @@ Qed.
 Section Proofs.
 Variable keccak : blob -> hash.
 Variable parent_of : blob -> option hash.
-Variable find_tx : blob -> N -> option N.
 
 Notation view_of := (view_of keccak parent_of).
 Notation read_header_rlp := (read_header_rlp keccak).
@@ -231,6 +230,98 @@ Proof.
   rewrite <- A1, Hh, <- A2, <- A3, <- A4, <- A5, <- A6. reflexivity.
 Qed.
 
+Lemma existsb_false {A} (f : A -> bool) l : Forall (fun x => f x = false) l -> existsb f l = false.
+Proof. induction 1 as [|x l H _ IH]; [reflexivity|]. cbn. rewrite H, IH. reflexivity. Qed.
+
+
+Lemma Forall_firstn {A} (P : A -> Prop) l : forall n, Forall P l -> Forall P (firstn n l).
+Proof.
+  induction l as [|x l IH]; intros [|n] H; cbn; auto. inversion H; subst. constructor; auto.
+Qed.
+Lemma Forall_last {A} (P : A -> Prop) l d : Forall P l -> P d -> P (last l d).
+Proof.
+  induction 1 as [|x l Hx Hl IH]; intros Hd; cbn; auto. destruct l; auto.
+Qed.
+
+
+(* ---------------- the three deletion batches ---------------- *)
+Lemma In_seqN c : forall a m, In m (seqN a c) <-> a <= m < a + N.of_nat c.
+Proof.
+  induction c as [|c IH]; intros a m; cbn [seqN In].
+  - lia.
+  - rewrite IH. lia.
+Qed.
+
+Lemma In_combine_seqN {A} (l : list A) : forall a m x,
+  In (m, x) (combine (seqN a (length l)) l) <-> exists i, nth_error l i = Some x /\ m = a + N.of_nat i.
+Proof.
+  induction l as [|y l IH]; intros a m x; cbn [length seqN combine In].
+  - split; [tauto|]. intros [[|i] [H _]]; discriminate.
+  - rewrite IH. split.
+    + intros [E|[i [H ->]]].
+      * inversion E; subst. exists O. split; [reflexivity|lia].
+      * exists (S i). split; [exact H|lia].
+    + intros [[|i] [H ->]].
+      * left. cbn in H. inversion H. f_equal. lia.
+      * right. exists i. split; [exact H|lia].
+Qed.
+
+Definition ops1_of (first : N) (items : list fitem) : list dop :=
+  flat_map (fun (ni : N * fitem) =>
+              if fst ni =? 0 then []
+              else [DBlockNoNum (fst ni) (fi_hash (snd ni)); DCanon (fst ni)])
+           (combine (seqN first (length items)) items).
+
+Lemma ops1_In first items o :
+  In o (ops1_of first items) <->
+  exists i it, nth_error items i = Some it /\ first + N.of_nat i <> 0 /\
+               (o = DBlockNoNum (first + N.of_nat i) (fi_hash it) \/ o = DCanon (first + N.of_nat i)).
+Proof.
+  unfold ops1_of. rewrite in_flat_map. split.
+  - intros [[m it] [H1 H2]]. apply In_combine_seqN in H1 as [i [H ->]]. cbn [fst snd] in H2.
+    destruct (first + N.of_nat i =? 0) eqn:E; [destruct H2|].
+    apply N.eqb_neq in E. exists i, it. split; [auto|]. split; [auto|].
+    destruct H2 as [<-|[<-|[]]]; auto.
+  - intros (i & it & H & Hz & Ho). exists (first + N.of_nat i, it). split.
+    + apply In_combine_seqN. eauto.
+    + cbn [fst snd]. apply N.eqb_neq in Hz. rewrite Hz. destruct Ho as [->| ->]; cbn; auto.
+Qed.
+
+Lemma side_pass_spec k numbers :
+  (forall o, In o (fst (side_pass k numbers)) ->
+     exists m h, o = DBlock m h /\ In m numbers /\ m <> 0 /\ In h (all_hashes k m)) /\
+  (forall x, In x (snd (side_pass k numbers)) ->
+     exists m, In m numbers /\ m <> 0 /\ In x (all_hashes k m)) /\
+  (forall m h, In m numbers -> m <> 0 -> In h (all_hashes k m) ->
+     In (DBlock m h) (fst (side_pass k numbers))).
+Proof.
+  unfold side_pass. induction numbers as [|x l IH] using rev_ind.
+  - cbn. split; [|split]; intros; tauto.
+  - rewrite fold_left_app. cbn [fold_left].
+    destruct IH as (A1 & A2 & A3).
+    destruct (x =? 0) eqn:E.
+    + apply N.eqb_eq in E; subst x. split; [|split].
+      * intros o H. destruct (A1 o H) as (m & h & ? & ? & ? & ?). exists m, h.
+        rewrite in_app_iff. auto.
+      * intros y H. destruct (A2 y H) as (m & ? & ? & ?). exists m. rewrite in_app_iff. auto.
+      * intros m h H Hz Hh. apply in_app_iff in H as [H|[<-|[]]]; [auto|congruence].
+    + apply N.eqb_neq in E. cbn [fst snd]. split; [|split].
+      * intros o H. apply in_app_iff in H as [H|H].
+        -- destruct (A1 o H) as (m & h & ? & ? & ? & ?). exists m, h. rewrite in_app_iff. auto.
+        -- apply in_map_iff in H as (h & <- & Hh). exists x, h. rewrite in_app_iff. cbn. auto.
+      * intros y H. exists x. rewrite in_app_iff. cbn. auto.
+      * intros m h H Hz Hh. apply in_app_iff. apply in_app_iff in H as [H|[<-|[]]]; [left; auto|].
+        right. apply in_map. exact Hh.
+Qed.
+
+Lemma mem_In p l : mem p l = true <-> In p l.
+Proof.
+  unfold mem. rewrite existsb_exists. split.
+  - intros (x & H & E). apply N.eqb_eq in E. subst; auto.
+  - intros H. exists p. split; [auto|apply N.eqb_refl].
+Qed.
+
+
 (* ================= the reference state and the relation ================= *)
 Section Ref.
 Variable s0 : st.
@@ -251,11 +342,15 @@ Definition item_matches (n : N) (it : fitem) : Prop :=
 Definition submap2 {X} (m m0 : list (k2 * X)) : Prop :=
   forall key v, get2 key m = Some v -> get2 key m0 = Some v.
 
+Definition submap1 {X} (m m0 : list (N * X)) : Prop :=
+  forall key v, get1 key m = Some v -> get1 key m0 = Some v.
+
 Record Rel (t : st) : Prop := mkRel {
   R_items : forall n it, ancient (s_fz t) n = Some it -> item_matches n it;
   R_kv : forall n, f_durable (s_fz t) <= n -> C n <> 0 -> view_of (nofreeze t) (C n) n = V n;
   R_sub_hdr : submap2 (k_hdr (s_kv t)) (k_hdr (s_kv s0));
   R_sub_bal : submap2 (k_bal (s_kv t)) (k_bal (s_kv s0));
+  R_sub_canon : submap1 (k_canon (s_kv t)) (k_canon (s_kv s0));
   R_num : forall n, C n <> 0 -> get1 (C n) (k_num (s_kv t)) = get1 (C n) (k_num (s_kv s0));
   R_txl : k_txl (s_kv t) = k_txl (s_kv s0);
   R_dur : f_durable (s_fz s0) <= f_durable (s_fz t) /\ f_durable (s_fz t) <= frozen (s_fz t)
@@ -349,17 +444,10 @@ Qed.
 Lemma nonempty_oblob (o : option blob) : nonempty (oblob o) = true -> exists b, o = Some b.
 Proof. destruct o; [eauto | discriminate]. Qed.
 
-Definition submap1 {X} (m m0 : list (N * X)) : Prop :=
-  forall key v, get1 key m = Some v -> get1 key m0 = Some v.
-
-(* the canonical mapping of the key-value store only shrinks; kept separate from
-   [Rel] fields that mention blocks *)
-Definition canon_sub (t : st) : Prop := submap1 (k_canon (s_kv t)) (k_canon (s_kv s0)).
-
 Lemma canon_nonzero t n :
-  Rel s0 -> Rel t -> canon_sub t -> ohash (get1 n (k_canon (s_kv t))) <> 0 -> C n <> 0.
+  Rel s0 -> Rel t -> ohash (get1 n (k_canon (s_kv t))) <> 0 -> C n <> 0.
 Proof.
-  intros R0 R S H. destruct (get1 n (k_canon (s_kv t))) as [h|] eqn:G; [|cbn in H; congruence].
+  intros R0 R H. assert (S := R_sub_canon _ R). destruct (get1 n (k_canon (s_kv t))) as [h|] eqn:G; [|cbn in H; congruence].
   cbn in H. apply S in G. unfold C, read_canonical_hash.
   destruct (ancient (s_fz s0) n) as [it|] eqn:A.
   - destruct (R_items _ R0 n it A) as (E1 & E2 & _). unfold C, read_canonical_hash in E1, E2.
@@ -409,9 +497,9 @@ Hypothesis Hlinked : forall n h b, In ((n, h), b) (k_hdr (s_kv s0)) -> 1 <= n ->
 Hypothesis Huniq : forall n m h b, In ((m, h), b) (k_hdr (s_kv s0)) -> h = C n -> C n <> 0 -> m = n.
 
 Lemma item_ok_matches t n it :
-  Rel t -> canon_sub t -> f_durable (s_fz t) <= n -> item_ok (s_kv t) n it -> item_matches n it.
+  Rel t -> f_durable (s_fz t) <= n -> item_ok (s_kv t) n it -> item_matches n it.
 Proof.
-  intros R S Hd (E1 & E2 & E3 & E4 & E5 & E6 & E7 & E8 & E9).
+  intros R Hd (E1 & E2 & E3 & E4 & E5 & E6 & E7 & E8 & E9).
   assert (HC : C n <> 0) by (eapply canon_nonzero; eauto).
   assert (Hv := R_kv _ R n Hd HC). rewrite nofreeze_view in Hv. cbv zeta in Hv.
   assert (Hh : ohash (get1 n (k_canon (s_kv t))) = C n).
@@ -436,5 +524,643 @@ Proof.
   repeat (split; [assumption || reflexivity|]). reflexivity.
 Qed.
 
+(* ---------------- steps that only shrink the key-value store ---------------- *)
+Lemma rel_kv_step t k' :
+  Rel t ->
+  (forall n, f_durable (s_fz t) <= n -> C n <> 0 -> kv_agree k' (s_kv t) (C n) n) ->
+  submap2 (k_hdr k') (k_hdr (s_kv t)) -> submap2 (k_bal k') (k_bal (s_kv t)) ->
+  submap1 (k_canon k') (k_canon (s_kv t)) ->
+  (forall n, C n <> 0 -> get1 (C n) (k_num k') = get1 (C n) (k_num (s_kv t))) ->
+  k_txl k' = k_txl (s_kv t) ->
+  Rel (mkSt k' (s_fz t)).
+Proof.
+  intros R Hag S1 S2 S3 Hn Ht. constructor; cbn [s_kv s_fz].
+  - apply (R_items _ R).
+  - intros n Hd HC. assert (Hv := R_kv _ R n Hd HC).
+    rewrite <- Hv. destruct t as [k f]. cbn [s_kv s_fz] in *.
+    apply view_nofreeze_agree; [apply Hag; auto|].
+    destruct (Hag n Hd HC) as (A1 & _). rewrite A1.
+    rewrite nofreeze_view in Hv. apply (f_equal v_canon) in Hv. exact Hv.
+  - intros key v G. apply (R_sub_hdr _ R). auto.
+  - intros key v G. apply (R_sub_bal _ R). auto.
+  - intros key v G. apply (R_sub_canon _ R). auto.
+  - intros n HC. rewrite Hn by auto. apply (R_num _ R); auto.
+  - rewrite Ht. apply (R_txl _ R).
+  - apply (R_dur _ R).
+Qed.
+
+Definition op_safe (n : N) (o : dop) : Prop :=
+  hits_blk (n, C n) o = false /\ hits_canon n o = false /\ hits_num (C n) o = false.
+
+Lemma wb_agree ops k n : Forall (op_safe n) ops -> kv_agree (write_batch ops k) k (C n) n.
+Proof.
+  intros F. destruct (wb_fields ops k) as (I1 & I2 & I3 & I4 & I5 & I6 & _).
+  assert (H1 : existsb (hits_blk (n, C n)) ops = false).
+  { apply existsb_false. eapply Forall_impl; [|exact F]. intros o (a & _); exact a. }
+  assert (H2 : existsb (hits_canon n) ops = false).
+  { apply existsb_false. eapply Forall_impl; [|exact F]. intros o (_ & a & _); exact a. }
+  assert (H3 : existsb (hits_num (C n)) ops = false).
+  { apply existsb_false. eapply Forall_impl; [|exact F]. intros o (_ & _ & a); exact a. }
+  unfold kv_agree. rewrite I1, I2, I3, I4, I5, I6, H1, H2, H3. repeat split.
+Qed.
+
+Lemma rel_write t ops :
+  Rel t ->
+  (forall n, f_durable (s_fz t) <= n -> C n <> 0 -> Forall (op_safe n) ops) ->
+  (forall n, C n <> 0 -> Forall (fun o => hits_num (C n) o = false) ops) ->
+  Rel (mkSt (write_batch ops (s_kv t)) (s_fz t)).
+Proof.
+  intros R H1 H2. destruct (wb_fields ops (s_kv t)) as (I1 & _ & _ & I4 & I5 & I6 & I7).
+  apply rel_kv_step; auto.
+  - intros n Hd HC. apply wb_agree; auto.
+  - intros key v G. rewrite I1 in G. destruct (existsb _ ops); [discriminate|exact G].
+  - intros key v G. rewrite I4 in G. destruct (existsb _ ops); [discriminate|exact G].
+  - intros key v G. rewrite I5 in G. destruct (existsb _ ops); [discriminate|exact G].
+  - intros n HC. rewrite I6, existsb_false; auto.
+Qed.
+
+Definition dgood (k : kvs) (lo : N) (o : dop) : Prop :=
+  exists tip c, o = DBlock tip c /\ lo <= tip /\ c <> C tip /\ get2 (tip, c) (k_hdr k) <> None.
+
+Lemma dangling_spec k lo :
+  (forall n b, 1 <= n -> get2 (n, C n) (k_hdr k) = Some b -> hdr_parent b = Some (C (n - 1))) ->
+  forall fuel tip dangling acc,
+    1 <= tip -> lo <= tip -> ~ In (C (tip - 1)) dangling -> Forall (dgood k lo) acc ->
+    Forall (dgood k lo) (fst (dangling_pass fuel k tip dangling acc)).
+Proof.
+  intros Hl. induction fuel as [|fuel IH]; intros tip dangling acc H1 Hlo Hnot Hacc;
+    destruct dangling as [|d0 dl]; cbn [ChainFreezer.dangling_pass fst]; auto.
+  set (dg := d0 :: dl) in *.
+  assert (Hct : forall b, get2 (tip, C tip) (k_hdr k) = Some b ->
+                          ChainFreezer.hdr_parent parent_of (oblob (Some b)) = Some (C (tip - 1))).
+  { intros b G. cbn [oblob]. apply Hl; auto. }
+  apply IH; [lia|lia| |].
+  - replace (tip + 1 - 1) with tip by lia. intros Hin.
+    apply filter_In in Hin as [Hin Hk]. apply all_hashes_In in Hin.
+    destruct (get2 (tip, C tip) (k_hdr k)) as [b|] eqn:G; [|congruence].
+    unfold child_keep in Hk. rewrite G, (Hct b eq_refl) in Hk. apply mem_In in Hk. contradiction.
+  - apply Forall_app. split; [exact Hacc|]. apply Forall_forall. intros o Ho.
+    apply in_map_iff in Ho as (c & <- & Hc). apply filter_In in Hc as [Hc Hd].
+    exists tip, c. split; [reflexivity|]. split; [exact Hlo|]. apply all_hashes_In in Hc.
+    split; [|exact Hc]. intros ->.
+    destruct (get2 (tip, C tip) (k_hdr k)) as [b|] eqn:G; [|congruence].
+    unfold child_del in Hd. rewrite G, (Hct b eq_refl) in Hd. apply mem_In in Hd. contradiction.
+Qed.
+
+(* ---------------- one iteration preserves the relation ---------------- *)
+Lemma rel_append k a d items :
+  Rel (mkSt k (mkFrz a d)) ->
+  (forall i it, nth_error items i = Some it -> item_ok k (N.of_nat (length a) + N.of_nat i) it) ->
+  Rel (mkSt k (mkFrz (a ++ items) d)).
+Proof.
+  intros R Hi. constructor; cbn [s_kv s_fz f_durable].
+  - intros n it A. rewrite (ancient_app a items d d n) in A.
+    destruct (n <? N.of_nat (length a)) eqn:E.
+    + apply (R_items _ R n it A).
+    + apply Hi in A. replace (N.of_nat (length a) + N.of_nat (N.to_nat (n - N.of_nat (length a)))) with n in A by lia.
+      eapply item_ok_matches; [exact R| |exact A]. cbn [s_fz f_durable].
+      destruct (R_dur _ R) as [_ H]. cbn [s_fz f_durable] in H. unfold frozen in H; cbn [f_items] in H. lia.
+  - apply (R_kv _ R).
+  - apply (R_sub_hdr _ R).
+  - apply (R_sub_bal _ R).
+  - apply (R_sub_canon _ R).
+  - apply (R_num _ R).
+  - apply (R_txl _ R).
+  - destruct (R_dur _ R) as [H1 H2]. cbn [s_fz f_durable] in *. split; [exact H1|].
+    unfold frozen in *; cbn [f_items] in *. rewrite app_length. lia.
+Qed.
+
+Lemma rel_sync k its d :
+  Rel (mkSt k (mkFrz its d)) -> Rel (mkSt k (mkFrz its (frozen (mkFrz its d)))).
+Proof.
+  intros R. destruct (R_dur _ R) as [H1 H2]. cbn [s_fz f_durable] in *.
+  constructor; cbn [s_kv s_fz f_durable].
+  - apply (R_items _ R).
+  - intros n Hd HC. apply (R_kv _ R n); [cbn [s_fz f_durable]; lia | exact HC].
+  - apply (R_sub_hdr _ R).
+  - apply (R_sub_bal _ R).
+  - apply (R_sub_canon _ R).
+  - apply (R_num _ R).
+  - apply (R_txl _ R).
+  - unfold frozen in *; cbn [f_items] in *. lia.
+Qed.
+
+Lemma uniq_get t m n b : Rel t -> get2 (m, C n) (k_hdr (s_kv t)) = Some b -> C n <> 0 -> m = n.
+Proof.
+  intros R G HC. apply (R_sub_hdr _ R) in G. apply get2_In in G. eapply Huniq; eauto.
+Qed.
+
+Lemma cycle_rel bl s : Rel s -> Forall Rel (snd (cycle bl s)).
+Proof.
+  intros R. destruct s as [k [a d]]. unfold ChainFreezer.cycle. cbn [s_kv s_fz].
+  destruct (freeze_threshold k) as [th|]; [|constructor].
+  destruct (negb (frozen (mkFrz a d) =? 0) && (th <=? frozen (mkFrz a d) - 1)); [constructor|].
+  cbv zeta.
+  match goal with |- context [freeze_range_loop ?fu k ?fi ?la []] =>
+    destruct (freeze_range_loop fu k fi la []) as [items|c] eqn:FR end; [|constructor].
+  apply range_ok in FR as (items' & E & Hitems). cbn [rev app] in E. subst items'.
+  set (first := frozen (mkFrz a d)) in *.
+  assert (Hfirst : first = N.of_nat (length a)) by reflexivity.
+  cbn [f_items f_durable].
+  set (f1 := mkFrz (a ++ items) d).
+  set (f2 := mkFrz (a ++ items) (frozen f1)).
+  assert (Hfr : frozen f2 = first + N.of_nat (length items)).
+  { unfold frozen, f2; cbn [f_items]. rewrite app_length. lia. }
+  assert (Hfr1 : frozen f1 = frozen f2) by reflexivity.
+  assert (R1 : Rel (mkSt k f1)).
+  { apply rel_append; [exact R|]. rewrite <- Hfirst. exact Hitems. }
+  assert (R2 : Rel (mkSt k f2)) by (apply rel_sync; exact R1).
+  (* the items of this iteration *)
+  assert (Hnew : forall n, first <= n < frozen f2 ->
+            exists it, nth_error items (N.to_nat (n - first)) = Some it /\ fi_hash it = C n /\ C n <> 0).
+  { intros n Hn. destruct (ancient_lt f2 n) as [it A]; [lia|].
+    destruct (R_items _ R2 n it A) as (E1 & E2 & _).
+    unfold f2 in A. rewrite (ancient_app a items _ d n) in A.
+    destruct (n <? N.of_nat (length a)) eqn:E; [lia|]. rewrite <- Hfirst in A. eauto. }
+  fold (ops1_of first items).
+  set (k3 := write_batch (ops1_of first items) k).
+  assert (Hdel : forall n, first <= n < frozen f2 -> n <> 0 -> get2 (n, C n) (k_hdr k3) = None).
+  { intros n Hn Hz. destruct (Hnew n Hn) as (it & Hi & Hh & _).
+    destruct (wb_fields (ops1_of first items) k) as (I1 & _). unfold k3. rewrite I1.
+    replace (existsb (hits_blk (n, C n)) (ops1_of first items)) with true; [reflexivity|].
+    symmetry. apply existsb_exists. exists (DBlockNoNum n (C n)). split; [|cbn; apply k2eq_refl].
+    apply ops1_In. exists (N.to_nat (n - first)), it.
+    replace (first + N.of_nat (N.to_nat (n - first))) with n by lia. rewrite Hh. auto. }
+  assert (R3 : Rel (mkSt k3 f2)).
+  { apply (rel_write (mkSt k f2) (ops1_of first items) R2); cbn [s_fz f_durable].
+    - intros n Hd HC. apply Forall_forall. intros o Ho. apply ops1_In in Ho as (i & it & Hi & Hz & Ho).
+      assert (Hlt : (i < length items)%nat) by (apply nth_error_Some; congruence).
+      assert (Hd' : frozen f2 <= n) by exact Hd.
+      assert (first + N.of_nat i <> n) by lia.
+      destruct Ho as [-> | ->]; unfold op_safe; cbn [hits_blk hits_canon hits_num];
+        repeat split; try reflexivity.
+      + apply k2eq_neq. intros E. inversion E. congruence.
+      + apply N.eqb_neq. congruence.
+    - intros n HC. apply Forall_forall. intros o Ho. apply ops1_In in Ho as (i & it & _ & _ & Ho).
+      destruct Ho as [-> | ->]; reflexivity. }
+  set (numbers := seqN first (N.to_nat (frozen f2 - first))).
+  assert (Hnumbers : forall m, In m numbers -> first <= m < frozen f2).
+  { intros m Hm. apply In_seqN in Hm. lia. }
+  destruct (side_pass_spec k3 numbers) as (S1 & S2 & _).
+  set (sp := side_pass k3 numbers) in *.
+  assert (Hside : forall m h n, In m numbers -> m <> 0 -> In h (all_hashes k3 m) -> C n <> 0 -> h <> C n).
+  { intros m h n Hm Hz Hh HC ->. apply all_hashes_In in Hh.
+    destruct (get2 (m, C n) (k_hdr k3)) as [b|] eqn:G; [|congruence].
+    assert (m = n) by (eapply (uniq_get (mkSt k3 f2)); eauto). subst m.
+    rewrite Hdel in G; [discriminate|auto|auto]. }
+  set (k4 := write_batch (fst sp) k3).
+  assert (R4 : Rel (mkSt k4 f2)).
+  { apply (rel_write (mkSt k3 f2) (fst sp) R3); cbn [s_fz f_durable].
+    - intros n Hd HC. apply Forall_forall. intros o Ho.
+      destruct (S1 o Ho) as (m & h & -> & Hm & Hz & Hh).
+      apply Hnumbers in Hm as Hm'. assert (Hd' : frozen f2 <= n) by exact Hd. unfold op_safe; cbn [hits_blk hits_canon hits_num]. repeat split.
+      + apply k2eq_neq. intros E. inversion E. lia.
+      + apply N.eqb_neq. intros E. symmetry in E. eapply Hside; eauto.
+    - intros n HC. apply Forall_forall. intros o Ho.
+      destruct (S1 o Ho) as (m & h & -> & Hm & Hz & Hh). cbn [hits_num].
+      apply N.eqb_neq. intros E. symmetry in E. eapply Hside; eauto. }
+  assert (Hsafe : forall ops, Forall (dgood k4 (frozen f2)) ops ->
+            Rel (mkSt (write_batch ops k4) f2)).
+  { intros ops F. apply (rel_write (mkSt k4 f2) ops R4); cbn [s_fz f_durable].
+    - intros n Hd HC. eapply Forall_impl; [|exact F]. intros o (tip & c & -> & Hlo & Hc & Hg).
+      unfold op_safe; cbn [hits_blk hits_canon hits_num]. repeat split.
+      + apply k2eq_neq. intros E. inversion E. subst. congruence.
+      + apply N.eqb_neq. intros E. subst c.
+        destruct (get2 (tip, C n) (k_hdr k4)) as [b|] eqn:G; [|congruence].
+        assert (tip = n) by (eapply (uniq_get (mkSt k4 f2)); eauto). subst. congruence.
+    - intros n HC. eapply Forall_impl; [|exact F]. intros o (tip & c & -> & Hlo & Hc & Hg).
+      cbn [hits_num]. apply N.eqb_neq. intros E. subst c.
+      destruct (get2 (tip, C n) (k_hdr k4)) as [b|] eqn:G; [|congruence].
+      assert (tip = n) by (eapply (uniq_get (mkSt k4 f2)); eauto). subst. congruence. }
+  destruct (0 <? frozen f2) eqn:Epos; cbn [snd].
+  2: { repeat (constructor; [assumption|]). constructor. }
+  repeat (constructor; [assumption|]). constructor; [|constructor]. apply Hsafe.
+  apply dangling_spec; [| lia | lia | | constructor].
+  - intros n b Hn G. apply (R_sub_hdr _ R4) in G. apply get2_In in G. eapply Hlinked; eauto; lia.
+  - intros Hin. destruct (S2 _ Hin) as (m & Hm & Hz & Hh). apply Hnumbers in Hm as Hm'.
+    destruct (Hnew (frozen f2 - 1)) as (_ & _ & _ & HC); [lia|].
+    eapply Hside; eauto.
+Qed.
+
+(* ---------------- crash, markers, histories ---------------- *)
+Lemma rel_crash keep t : Rel t -> crash_ok keep t = true -> Rel (crash keep t).
+Proof.
+  intros R Hc. unfold crash_ok in Hc. apply andb_true_iff in Hc as [H1 H2].
+  destruct t as [k [its d]]. unfold crash; cbn [s_kv s_fz f_items f_durable] in *.
+  constructor; cbn [s_kv s_fz f_durable].
+  - intros n it A. apply ancient_firstn in A. apply (R_items _ R n it A).
+  - apply (R_kv _ R).
+  - apply (R_sub_hdr _ R).
+  - apply (R_sub_bal _ R).
+  - apply (R_sub_canon _ R).
+  - apply (R_num _ R).
+  - apply (R_txl _ R).
+  - destruct (R_dur _ R) as [D1 D2]. cbn [s_fz f_durable] in *. split; [exact D1|].
+    unfold frozen in *; cbn [f_items] in *. rewrite firstn_length. lia.
+Qed.
+
+Lemma rel_markers hb hh fin t : Rel t -> Rel (set_markers hb hh fin t).
+Proof.
+  intros R. constructor; unfold set_markers; cbn [s_kv s_fz k_hdr k_bal k_canon k_num k_txl].
+  - apply (R_items _ R).
+  - intros n Hd HC. rewrite <- (R_kv _ R n Hd HC). rewrite !nofreeze_view. reflexivity.
+  - apply (R_sub_hdr _ R).
+  - apply (R_sub_bal _ R).
+  - apply (R_sub_canon _ R).
+  - apply (R_num _ R).
+  - apply (R_txl _ R).
+  - apply (R_dur _ R).
+Qed.
+
+Lemma step_rel bl s e : Rel s -> Rel (step bl s e) /\ Forall Rel (visible bl s e).
+Proof.
+  intros R. assert (Hc := cycle_rel bl s R).
+  destruct e as [hb hh fin| |stop keep]; cbn [ChainFreezer.step ChainFreezer.visible].
+  - split; [|constructor; [|constructor]]; apply rel_markers; exact R.
+  - split; [apply Forall_last; auto | exact Hc].
+  - assert (Rt : Rel (stop_state bl s stop)).
+    { unfold ChainFreezer.stop_state. apply Forall_last; [apply Forall_firstn; exact Hc | exact R]. }
+    assert (Rc : Rel (if crash_ok keep (stop_state bl s stop)
+                      then crash keep (stop_state bl s stop) else stop_state bl s stop)).
+    { destruct (crash_ok keep _) eqn:E; [apply rel_crash; auto | exact Rt]. }
+    split; [exact Rc|]. apply Forall_app. split; [apply Forall_firstn; exact Hc|].
+    constructor; [exact Rc|constructor].
+Qed.
+
+Lemma history_rel bl evs : forall s, Rel s -> Rel (run bl s evs) /\ Forall Rel (visible_all bl s evs).
+Proof.
+  induction evs as [|e evs IH]; intros s R; cbn [ChainFreezer.run ChainFreezer.visible_all].
+  - split; [exact R|constructor].
+  - destruct (step_rel bl s e R) as [R1 F1]. destruct (IH _ R1) as [R2 F2].
+    split; [exact R2|]. apply Forall_app. split; assumption.
+Qed.
+
+(* ---------------- consequences of the relation ---------------- *)
+Lemma rel_canon_all t n : Rel t -> read_canonical_hash t n = C n.
+Proof.
+  intros R. destruct (N.eq_dec (C n) 0) as [Z|NZ].
+  - unfold read_canonical_hash. destruct (ancient (s_fz t) n) as [it|] eqn:A.
+    + destruct (R_items _ R n it A) as (_ & H & _). contradiction.
+    + rewrite Z. destruct (get1 n (k_canon (s_kv t))) as [h|] eqn:G; [|reflexivity].
+      apply (R_sub_canon _ R) in G. cbn [ohash].
+      unfold C, read_canonical_hash in Z. destruct (ancient (s_fz s0) n) as [it0|] eqn:A0.
+      * destruct (R_items _ HR0 n it0 A0) as (E1 & E2 & _). unfold C, read_canonical_hash in E2.
+        rewrite A0 in E2. contradiction.
+      * rewrite G in Z. exact Z.
+  - apply (f_equal v_canon (rel_view t n R NZ)).
+Qed.
+
+Lemma rel_tx (find_tx : blob -> N -> option N) t th :
+  Rel t -> read_canonical_tx find_tx t th = read_canonical_tx find_tx s0 th.
+Proof.
+  intros R. unfold read_canonical_tx, read_tx_lookup. rewrite (R_txl _ R).
+  destruct (get1 th (k_txl (s_kv s0))) as [n|]; [|reflexivity].
+  rewrite (rel_canon_all t n R), (rel_canon_all s0 n HR0).
+  destruct (C n =? 0) eqn:E; [reflexivity|]. apply N.eqb_neq in E.
+  assert (H := f_equal v_cbody (rel_view t n R E)).
+  assert (H0 := f_equal v_cbody (rel_view s0 n HR0 E)).
+  cbn [ChainFreezer.view_of v_cbody] in H, H0. unfold ChainFreezer.view_of in H, H0.
+  cbn [v_cbody] in H, H0. rewrite H, <- H0. reflexivity.
+Qed.
+
 End Ref.
+
+(* ================= closed statements ================= *)
+Definition canon0 (s0 : st) (n : N) : hash := read_canonical_hash s0 n.
+
+Theorem freeze_preserves_accessors s0 bl evs t :
+  Inv s0 -> In t (s0 :: visible_all bl s0 evs ++ [run bl s0 evs]) ->
+  (forall n, canon0 s0 n <> 0 -> view_of t (canon0 s0 n) n = view_of s0 (canon0 s0 n) n) /\
+  (forall n, read_canonical_hash t n = canon0 s0 n) /\
+  (forall find_tx th, read_canonical_tx find_tx t th = read_canonical_tx find_tx s0 th).
+Proof.
+  intros [R0 Hh Hl Hu] Hin.
+  assert (R : Rel s0 t).
+  { destruct (history_rel s0 R0 Hh Hl Hu bl evs s0 R0) as [R1 F].
+    destruct Hin as [<-|Hin]; [exact R0|]. apply in_app_iff in Hin as [Hin|[<-|[]]]; [|exact R1].
+    rewrite Forall_forall in F. auto. }
+  split; [|split].
+  - intros n HC. apply (rel_view s0 t n R HC).
+  - intros n. apply (rel_canon_all s0 R0 t n R).
+  - intros find_tx th. apply (rel_tx s0 R0 find_tx t th R).
+Qed.
+
+(* at no visible state is a complete canonical block unreadable *)
+Theorem no_canonical_unreadable s0 bl evs t n :
+  Inv s0 -> In t (s0 :: visible_all bl s0 evs ++ [run bl s0 evs]) -> canon0 s0 n <> 0 ->
+  let h := canon0 s0 n in
+  (nonempty (read_header_rlp s0 h n) = true -> nonempty (read_header_rlp t h n) = true) /\
+  (nonempty (read_body_rlp s0 h n) = true -> nonempty (read_body_rlp t h n) = true) /\
+  (nonempty (read_receipts_rlp s0 h n) = true -> nonempty (read_receipts_rlp t h n) = true) /\
+  (* and the block is in at least one of the two stores *)
+  (nonempty (read_header_rlp s0 h n) = true ->
+   (exists it, ancient (s_fz t) n = Some it /\ fi_hash it = h /\ fi_hdr it = read_header_rlp s0 h n) \/
+   oblob (get2 (n, h) (k_hdr (s_kv t))) = read_header_rlp s0 h n).
+Proof.
+  intros I Hin HC h. destruct (freeze_preserves_accessors s0 bl evs t I Hin) as (Hv & _ & _).
+  specialize (Hv n HC). fold h in Hv.
+  assert (E1 := f_equal v_hdr Hv). assert (E2 := f_equal v_body Hv). assert (E3 := f_equal v_rcpt Hv).
+  unfold ChainFreezer.view_of in E1, E2, E3. cbn [v_hdr v_body v_rcpt] in E1, E2, E3.
+  split; [rewrite E1; auto|]. split; [rewrite E2; auto|]. split; [rewrite E3; auto|].
+  intros Hne. revert E1. unfold ChainFreezer.read_header_rlp at 1.
+  destruct (ancient (s_fz t) n) as [it|] eqn:A; [|intros E1; right; exact E1].
+  destruct (nonempty (fi_hdr it) && (keccak (fi_hdr it) =? h)) eqn:E; [|intros E1; right; exact E1].
+  intros E1. left. exists it. split; [reflexivity|]. split; [|exact E1].
+  destruct I as [R0 Hh Hl Hu].
+  assert (R : Rel s0 t).
+  { destruct (history_rel s0 R0 Hh Hl Hu bl evs s0 R0) as [R1 F].
+    destruct Hin as [<-|Hin]; [exact R0|]. apply in_app_iff in Hin as [Hin|[<-|[]]]; [|exact R1].
+    rewrite Forall_forall in F. auto. }
+  destruct (R_items s0 t R n it A) as (H1 & _). exact H1.
+Qed.
+
+(* the freezer always holds a gap-free prefix of the canonical chain, and what is not
+   yet durable there is still complete in the key-value store *)
+Theorem frozen_prefix_contiguous s0 bl evs t :
+  Inv s0 -> In t (s0 :: visible_all bl s0 evs ++ [run bl s0 evs]) ->
+  f_durable (s_fz t) <= frozen (s_fz t) /\
+  (forall n, n < frozen (s_fz t) ->
+     exists it, ancient (s_fz t) n = Some it /\ fi_hash it = canon0 s0 n /\ canon0 s0 n <> 0 /\
+                fi_hdr it = read_header_rlp s0 (canon0 s0 n) n /\
+                fi_body it = read_body_rlp s0 (canon0 s0 n) n /\
+                fi_rcpt it = read_receipts_rlp s0 (canon0 s0 n) n) /\
+  (forall n, f_durable (s_fz t) <= n -> canon0 s0 n <> 0 ->
+     view_of (nofreeze t) (canon0 s0 n) n = view_of s0 (canon0 s0 n) n).
+Proof.
+  intros [R0 Hh Hl Hu] Hin.
+  assert (R : Rel s0 t).
+  { destruct (history_rel s0 R0 Hh Hl Hu bl evs s0 R0) as [R1 F].
+    destruct Hin as [<-|Hin]; [exact R0|]. apply in_app_iff in Hin as [Hin|[<-|[]]]; [|exact R1].
+    rewrite Forall_forall in F. auto. }
+  split; [apply (R_dur s0 t R)|]. split.
+  - intros n Hn. destruct (ancient_lt _ _ Hn) as [it A]. exists it. split; [exact A|].
+    destruct (R_items s0 t R n it A) as (E1 & E2 & E3 & _ & E5 & E6 & _). auto.
+  - intros n Hd HC. apply (R_kv s0 t R n Hd HC).
+Qed.
+
+(* ---------------- side chains below the boundary ---------------- *)
+Definition block_absent (k : kvs) (m : N) (h : hash) : Prop :=
+  get2 (m, h) (k_hdr k) = None /\ get2 (m, h) (k_body k) = None /\
+  get2 (m, h) (k_rcpt k) = None /\ get2 (m, h) (k_bal k) = None.
+
+Lemma wb_hit ops k key : existsb (hits_blk key) ops = true ->
+  block_absent (write_batch ops k) (fst key) (snd key).
+Proof.
+  intros H. destruct (wb_fields ops k) as (I1 & I2 & I3 & I4 & _). destruct key as [m h].
+  unfold block_absent; cbn [fst snd].
+  split; [|split; [|split]]; [rewrite I1|rewrite I2|rewrite I3|rewrite I4];
+    (match goal with |- (if ?c then _ else _) = _ => assert (c = true) as -> by exact H end); reflexivity.
+Qed.
+
+Lemma wb_absent ops k m h : block_absent k m h -> block_absent (write_batch ops k) m h.
+Proof.
+  intros (A1 & A2 & A3 & A4). destruct (wb_fields ops k) as (I1 & I2 & I3 & I4 & _).
+  unfold block_absent.
+  split; [|split; [|split]]; [rewrite I1, A1|rewrite I2, A2|rewrite I3, A3|rewrite I4, A4];
+    destruct (existsb _ ops); reflexivity.
+Qed.
+
+Lemma wb_hdr_none ops k key : get2 key (k_hdr k) = None -> get2 key (k_hdr (write_batch ops k)) = None.
+Proof.
+  intros A. destruct (wb_fields ops k) as (I1 & _). rewrite I1, A. destruct (existsb _ ops); auto.
+Qed.
+
+(* after a completed iteration: at every height of the migrated range (genesis
+   excepted) no header is left in the key-value store, and every block that had a
+   header there (canonical or not) is gone with its body, receipts and access list *)
+Theorem side_chains_removed_below bl s b l :
+  cycle bl s = (Froze b, l) ->
+  let s' := last l s in
+  forall m, frozen (s_fz s) <= m < frozen (s_fz s') -> m <> 0 ->
+    (forall h, get2 (m, h) (k_hdr (s_kv s')) = None) /\
+    (forall h, get2 (m, h) (k_hdr (s_kv s)) <> None -> block_absent (s_kv s') m h).
+Proof.
+  destruct s as [k [a d]]. unfold ChainFreezer.cycle. cbn [s_kv s_fz].
+  destruct (freeze_threshold k) as [th|]; [|discriminate].
+  destruct (negb (frozen (mkFrz a d) =? 0) && (th <=? frozen (mkFrz a d) - 1)); [discriminate|].
+  cbv zeta.
+  match goal with |- context [freeze_range_loop ?fu k ?fi ?la []] =>
+    destruct (freeze_range_loop fu k fi la []) as [items|c] eqn:FR end; [|discriminate].
+  clear FR. set (first := frozen (mkFrz a d)) in *. cbn [f_items f_durable].
+  set (f1 := mkFrz (a ++ items) d). set (f2 := mkFrz (a ++ items) (frozen f1)).
+  fold (ops1_of first items). set (k3 := write_batch (ops1_of first items) k).
+  set (numbers := seqN first (N.to_nat (frozen f2 - first))).
+  destruct (side_pass_spec k3 numbers) as (_ & _ & S3).
+  set (sp := side_pass k3 numbers) in *. set (k4 := write_batch (fst sp) k3).
+  assert (Hk4 : forall m, first <= m < frozen f2 -> m <> 0 ->
+            (forall h, get2 (m, h) (k_hdr k4) = None) /\
+            (forall h, get2 (m, h) (k_hdr k) <> None -> block_absent k4 m h)).
+  { intros m Hm Hz. assert (Hin : In m numbers) by (unfold numbers; apply (proj2 (In_seqN _ _ _)); lia).
+    assert (Hh : forall h, get2 (m, h) (k_hdr k3) <> None -> block_absent k4 m h).
+    { intros h G. apply (wb_hit (fst sp) k3 (m, h)). apply existsb_exists.
+      exists (DBlock m h). split; [|cbn; apply k2eq_refl]. apply S3; auto. apply all_hashes_In. exact G. }
+    split.
+    - intros h. destruct (get2 (m, h) (k_hdr k3)) eqn:G.
+      + apply Hh. congruence.
+      + apply wb_hdr_none. exact G.
+    - intros h G. destruct (get2 (m, h) (k_hdr k3)) eqn:G3; [apply Hh; congruence|].
+      (* the header disappeared in the first batch: it was the canonical one *)
+      apply wb_absent. destruct (wb_fields (ops1_of first items) k) as (I1 & _).
+      unfold k3 in G3. rewrite I1 in G3.
+      destruct (existsb (hits_blk (m, h)) (ops1_of first items)) eqn:E; [|congruence].
+      apply (wb_hit _ k (m, h) E). }
+  destruct (0 <? frozen f2); intros E; inversion E; subst l; cbn [last s_kv s_fz];
+    intros m Hm Hz; destruct (Hk4 m Hm Hz) as [H1 H2]; split; auto.
+  - intros h. apply wb_hdr_none. auto.
+  - intros h G. apply wb_absent. auto.
+Qed.
+
+Definition clean_below (s : st) : Prop :=
+  forall m h, 1 <= m < frozen (s_fz s) -> get2 (m, h) (k_hdr (s_kv s)) = None.
+
+Lemma cycle_frozen_mono bl s : frozen (s_fz s) <= frozen (s_fz (last (snd (cycle bl s)) s)).
+Proof.
+  destruct s as [k [a d]]. unfold ChainFreezer.cycle. cbn [s_kv s_fz].
+  destruct (freeze_threshold k) as [th|]; [|cbn; lia].
+  destruct (negb _ && _); [cbn; lia|]. cbv zeta.
+  match goal with |- context [freeze_range_loop ?fu k ?fi ?la []] =>
+    destruct (freeze_range_loop fu k fi la []) as [items|c] end; [|cbn; lia].
+  destruct (0 <? _); cbn [snd last s_fz]; unfold frozen; cbn [f_items]; rewrite app_length; lia.
+Qed.
+
+Lemma cycle_hdr_sub bl s : Forall (fun t => submap2 (k_hdr (s_kv t)) (k_hdr (s_kv s))) (snd (cycle bl s)).
+Proof.
+  assert (Hw : forall ops k, submap2 (k_hdr (write_batch ops k)) (k_hdr k)).
+  { intros ops k key v G. destruct (wb_fields ops k) as (I1 & _). rewrite I1 in G.
+    destruct (existsb _ ops); [discriminate|exact G]. }
+  destruct s as [k [a d]]. unfold ChainFreezer.cycle. cbn [s_kv s_fz].
+  destruct (freeze_threshold k) as [th|]; [|constructor].
+  destruct (negb _ && _); [constructor|]. cbv zeta.
+  match goal with |- context [freeze_range_loop ?fu k ?fi ?la []] =>
+    destruct (freeze_range_loop fu k fi la []) as [items|c] end; [|constructor].
+  assert (H0 : submap2 (k_hdr k) (k_hdr k)) by (intros ? ? G; exact G).
+  destruct (0 <? _); cbn [snd]; repeat (constructor; [cbn [s_kv]; auto|]); try constructor.
+  - cbn [s_kv]. intros key v G. apply Hw in G. apply Hw in G. exact G.
+  - cbn [s_kv]. intros key v G. apply Hw in G. apply Hw in G. apply Hw in G. exact G.
+  - cbn [s_kv]. intros key v G. apply Hw in G. apply Hw in G. exact G.
+Qed.
+
+(* histories without crashes keep the key-value store clean below the boundary *)
+Theorem clean_below_cycle bl s : clean_below s -> clean_below (step bl s EvCycle).
+Proof.
+  intros Hc. cbn [ChainFreezer.step]. destruct (cycle bl s) as [o l] eqn:E. cbn [snd].
+  assert (Hsub := cycle_hdr_sub bl s). assert (Hmono := cycle_frozen_mono bl s).
+  rewrite E in Hsub, Hmono. cbn [snd] in Hsub, Hmono.
+  assert (Hs : submap2 (k_hdr (s_kv (last l s))) (k_hdr (s_kv s))).
+  { apply (Forall_last (fun t => submap2 (k_hdr (s_kv t)) (k_hdr (s_kv s)))); [exact Hsub|].
+    intros ? ? G; exact G. }
+  intros m h Hm. destruct (N.lt_ge_cases m (frozen (s_fz s))) as [L|L].
+  - destruct (get2 (m, h) (k_hdr (s_kv (last l s)))) eqn:G; [|reflexivity].
+    apply Hs in G. rewrite Hc in G; [discriminate|lia].
+  - destruct o as [c|b].
+    + (* no iteration: nothing was appended *)
+      unfold ChainFreezer.cycle in E. destruct s as [k [a d]]. cbn [s_kv s_fz] in *.
+      destruct (freeze_threshold k); [|inversion E; subst l; cbn in Hm; lia].
+      destruct (negb _ && _); [inversion E; subst l; cbn in Hm; lia|]. cbv zeta in E.
+      match type of E with context [freeze_range_loop ?fu k ?fi ?la []] =>
+        destruct (freeze_range_loop fu k fi la []) end; [|inversion E; subst l; cbn in Hm; lia].
+      destruct (0 <? _); discriminate.
+    + destruct (side_chains_removed_below bl s b l E m) as [H _]; [lia|lia|]. apply H.
+Qed.
+
+(* ---------------- a decidable sufficient condition for [Inv] (empty freezer) ---------------- *)
+Definition kcanon (k : kvs) (n : N) : hash := ohash (get1 n (k_canon k)).
+Definition opt_hash_eqb (a b : option hash) : bool :=
+  match a, b with Some x, Some y => x =? y | None, None => true | _, _ => false end.
+Definition wf_entry (k : kvs) (e : k2 * blob) : bool :=
+  let m := fst (fst e) in let h := snd (fst e) in let b := snd e in
+  if h =? kcanon k m then
+    (keccak b =? h) &&
+    (if 1 <=? m then opt_hash_eqb (hdr_parent b) (Some (kcanon k (m - 1))) else true)
+  else true.
+Definition uniq_entry (k : kvs) (e : k2 * blob) : bool :=
+  let m := fst (fst e) in let h := snd (fst e) in
+  (h =? 0) || forallb (fun c : N * hash =>
+                         if (snd c =? h) && (kcanon k (fst c) =? h) then fst c =? m else true)
+                      (k_canon k).
+Definition wf_b (s : st) : bool :=
+  match f_items (s_fz s) with
+  | [] => (f_durable (s_fz s) =? 0) && forallb (wf_entry (s_kv s)) (k_hdr (s_kv s))
+          && forallb (uniq_entry (s_kv s)) (k_hdr (s_kv s))
+  | _ => false
+  end.
+
+Lemma get1_In {X} k (v : X) m : get1 k m = Some v -> In (k, v) m.
+Proof.
+  induction m as [|[a w] m IH]; cbn [get1]; [discriminate|].
+  destruct (k =? a) eqn:E; intros H.
+  - apply N.eqb_eq in E; subst a. inversion H; subst. left; reflexivity.
+  - right; auto.
+Qed.
+
+Theorem wf_b_Inv s0 : wf_b s0 = true -> Inv s0.
+Proof.
+  unfold wf_b. destruct s0 as [k [its d]]. cbn [s_kv s_fz f_items f_durable].
+  destruct its; [|discriminate]. intros H.
+  apply andb_true_iff in H as [H H3]. apply andb_true_iff in H as [H1 H2].
+  apply N.eqb_eq in H1. subst d.
+  set (s0 := mkSt k (mkFrz [] 0)).
+  assert (HC : forall n, C s0 n = kcanon k n).
+  { intros n. unfold C, read_canonical_hash, s0. cbn [s_fz s_kv]. rewrite ancient_nil. reflexivity. }
+  rewrite forallb_forall in H2, H3.
+  constructor.
+  - constructor; cbn [s_kv s_fz f_durable].
+    + intros n it A. unfold s0 in A; cbn [s_fz] in A. rewrite ancient_nil in A. discriminate.
+    + intros n _ _. unfold V. symmetry. apply view_nofreeze. apply ancient_nil.
+    + intros ? ? G; exact G.
+    + intros ? ? G; exact G.
+    + intros ? ? G; exact G.
+    + reflexivity.
+    + reflexivity.
+    + unfold frozen; cbn. lia.
+  - intros n h b Hin ->. specialize (H2 _ Hin). unfold wf_entry in H2. cbn [fst snd] in H2.
+    rewrite HC, N.eqb_refl in H2. apply andb_true_iff in H2 as [E _]. apply N.eqb_eq in E.
+    rewrite HC. exact E.
+  - intros n h b Hin Hn ->. specialize (H2 _ Hin). unfold wf_entry in H2. cbn [fst snd] in H2.
+    rewrite HC, N.eqb_refl in H2. apply andb_true_iff in H2 as [_ E].
+    assert (1 <=? n = true) as E1 by lia. rewrite E1 in E. rewrite HC.
+    destruct (hdr_parent b) as [p|]; cbn in E; [|discriminate].
+    apply N.eqb_eq in E. subst p. reflexivity.
+  - intros n m h b Hin -> Hz. specialize (H3 _ Hin). unfold uniq_entry in H3. cbn [fst snd] in H3.
+    rewrite HC in *. apply orb_true_iff in H3 as [E|E]; [apply N.eqb_eq in E; contradiction|].
+    rewrite forallb_forall in E.
+    assert (G : get1 n (k_canon k) = Some (kcanon k n)).
+    { unfold kcanon in *. destruct (get1 n (k_canon k)); [reflexivity|cbn in Hz; congruence]. }
+    apply get1_In in G. specialize (E _ G). cbn [fst snd] in E.
+    rewrite !N.eqb_refl in E. cbn in E. apply N.eqb_eq in E. auto.
+Qed.
+
 End Proofs.
+
+(* ================= concrete instances (non-vacuity, refutations) ================= *)
+(* toy codec: a header blob is [hash; parent hash] *)
+Definition ex_keccak (b : blob) : hash := hd 0 b.
+Definition ex_parent (b : blob) : option hash :=
+  match b with _ :: p :: _ => Some p | _ => None end.
+Definition ex_find_tx (b : blob) (th : N) : option N :=
+  match b with _ :: _ :: t :: _ => if t =? th then Some 0 else None | _ => None end.
+
+Definition ex_blocks : list (N * hash * hash * bool) :=   (* number, hash, parent, canonical *)
+  [(0, 10, 0, true); (1, 11, 10, true); (2, 12, 11, true); (3, 13, 12, true); (4, 14, 13, true);
+   (1, 21, 10, false); (2, 22, 21, false); (3, 23, 22, false); (4, 24, 23, false)].
+
+Definition ex_kv : kvs :=
+  let key (b : N * hash * hash * bool) := (fst (fst (fst b)), snd (fst (fst b))) in
+  mkKV (map (fun b => (fst (fst (fst b)), snd (fst (fst b)))) (filter (fun b => snd b) ex_blocks))
+       (map (fun b => (key b, [snd (fst (fst b)); snd (fst b)])) ex_blocks)
+       (map (fun b => (key b, [1; snd (fst (fst b)); 100 + snd (fst (fst b))])) ex_blocks)
+       (map (fun b => (key b, [2; snd (fst (fst b))])) ex_blocks)
+       [((1, 11), [3; 11])]
+       (map (fun b => (snd (fst (fst b)), fst (fst (fst b)))) ex_blocks)
+       [(111, 1); (113, 3)]
+       14 14 12.
+Definition ex_s0 : st := mkSt ex_kv (mkFrz [] 0).
+
+Definition ex_hist : list event := [EvCycle; EvMarkers 14 14 13; EvCrash 1 3; EvCycle].
+
+(* the frozen boundary reaches 4; the side blocks 21 22 23 and the dangling 24 are gone;
+   the canonical head 14 is untouched; every canonical view is unchanged at the end *)
+Definition ex_check : bool :=
+  let t := run ex_parent freezer_batch_limit ex_s0 ex_hist in
+  wf_b ex_keccak ex_parent ex_s0 &&
+  (frozen (s_fz t) =? 4) &&
+  forallb (fun nh : N * hash => negb (kv_has nh (k_hdr (s_kv t)))) [(1, 21); (2, 22); (3, 23); (4, 24); (1, 11); (3, 13)] &&
+  kv_has (4, 14) (k_hdr (s_kv t)) && kv_has (0, 10) (k_hdr (s_kv t)) &&
+  (read_canonical_hash t 2 =? 12) &&
+  match read_canonical_tx ex_find_tx t 113, read_canonical_tx ex_find_tx ex_s0 113 with
+  | Some (13, 3, 0), Some (13, 3, 0) => true
+  | _, _ => false
+  end.
+
+(* an iteration interrupted after its SyncAncient: the next iterations start at the new
+   freezer head, so the side block 21 at height 1 stays in the key-value store for ever *)
+Definition ex_crash_hist : list event := [EvCrash 2 3; EvCycle; EvMarkers 14 14 13; EvCycle; EvCycle].
+Definition ex_leftover : bool :=
+  let t := run ex_parent freezer_batch_limit ex_s0 ex_crash_hist in
+  wf_b ex_keccak ex_parent ex_s0 && (frozen (s_fz t) =? 4) &&
+  kv_has (1, 21) (k_hdr (s_kv t)) && kv_has (1, 21) (k_body (s_kv t)) && kv_has (1, 11) (k_hdr (s_kv t)).
+
+Theorem side_chains_survive_crash_refuted :
+  exists s0 evs, Inv ex_keccak ex_parent s0 /\
+    let t := run ex_parent freezer_batch_limit s0 evs in
+    exists m h, 1 <= m < frozen (s_fz t) /\ get2 (m, h) (k_hdr (s_kv t)) <> None.
+Proof.
+  exists ex_s0, ex_crash_hist. split; [apply wf_b_Inv; vm_compute; reflexivity|].
+  exists 1, 21. split; [split; [lia | apply N.ltb_lt; vm_compute; reflexivity]|].
+  assert (E : kv_has (1, 21) (k_hdr (s_kv (run ex_parent freezer_batch_limit ex_s0 ex_crash_hist))) = true)
+    by (vm_compute; reflexivity).
+  unfold kv_has in E. intros G. rewrite G in E. exact (Bool.diff_false_true E).
+Qed.
+
+(* HasAccessList only looks into the key-value store: it answers [true] before and
+   [false] after the migration of a canonical block that has an access list *)
+Theorem has_access_list_refuted :
+  exists s0 evs, Inv ex_keccak ex_parent s0 /\ read_canonical_hash s0 1 = 11 /\
+    has_access_list s0 11 1 = true /\
+    has_access_list (run ex_parent freezer_batch_limit s0 evs) 11 1 = false /\
+    read_bal_rlp s0 11 1 = read_bal_rlp (run ex_parent freezer_batch_limit s0 evs) 11 1.
+Proof.
+  exists ex_s0, [EvCycle]. split; [apply wf_b_Inv; vm_compute; reflexivity|].
+  split; [vm_compute; reflexivity|]. split; [vm_compute; reflexivity|].
+  split; vm_compute; reflexivity.
+Qed.
